@@ -131,8 +131,14 @@ func c13Pod(shape int, key string) []func(*corev1.Pod) {
 		return []func(*corev1.Pod){requiredTerms([]corev1.NodeSelectorRequirement{nsr(key, corev1.NodeSelectorOpLt, "3")})}
 	case 5:
 		return []func(*corev1.Pod){requiredTerms([]corev1.NodeSelectorRequirement{nsr(key, corev1.NodeSelectorOpExists)})}
+	case 6:
+		return []func(*corev1.Pod){requiredTerms([]corev1.NodeSelectorRequirement{nsr(key, corev1.NodeSelectorOpDoesNotExist)})}
 	}
 	return nil
+}
+
+func c13ShapeName(shape int) string {
+	return []string{"plain", "key In 2", "key NotIn 2", "key Gt 1", "key Lt 3", "key Exists", "key DoesNotExist"}[shape]
 }
 
 // judgeLaunchRequest compares the created NodeClaim with the scheduler's in-memory decision and the NodePool template.
@@ -280,6 +286,10 @@ func (env *SchedEnv) judgeLaunchRequest(out schedOutcome) (viol []c01Violation, 
 			if !oracle.SatAll(nc.Spec.Requirements, k, true, v) {
 				viol = append(viol, c01Violation{"launch: pinned label violates own requirement", fmt.Sprintf("NodeClaim %s label %s=%s is not admitted by its requirement %s", nc.Name, k, v, oracle.ReqsString(oracle.OnKey(nc.Spec.Requirements, k)))})
 			}
+			// (5b) ... and it has to come from somewhere: the NodePool template, or a requirement of THIS NodeClaim on the key
+			if _, tpl := np.Spec.Template.Labels[k]; !tpl && len(oracle.OnKey(nc.Spec.Requirements, k)) == 0 {
+				viol = append(viol, c01Violation{"launch: label from neither the template nor the NodeClaim's own requirements", fmt.Sprintf("NodeClaim %s carries label %s=%s; the NodePool template has no such label and the NodeClaim has no requirement on %s", nc.Name, k, v, k)})
+			}
 		}
 	}
 	return viol, n
@@ -394,6 +404,46 @@ func init() {
 					l.Sample(map[string]any{"case": desc, "created": out.Digest})
 				}
 			}()
+		})
+		// (b5) SIBLINGS: two pods that cannot share a node (5 cpu each) get one NodeClaim each from the same NodePool in ONE
+		// pass; every ordered pair of custom-key shapes x {pool silent on the key, pool defining it} x both creation orders.
+		// Each NodeClaim is judged on its own: what one sibling resolved must not show up on the other.
+		sib := []int{0, 1, 2, 3, 5, 6} // plain, In 2, NotIn 2, Gt 1, Exists, DoesNotExist
+		enum.Run(r, enum.Size(len(sib), len(sib), 2, 2), func(idx int64, l *ev.Local) {
+			d := enum.Odo(idx, len(sib), len(sib), 2, 2)
+			key := world.TeamKey
+			np := world.NodePool("default")
+			if d[2] == 1 {
+				np = world.NodePool("default", reqsMod(oracle.R(key, corev1.NodeSelectorOpExists)))
+			}
+			c := SchedCase{Catalog: "K1", MinV: options.MinValuesPolicyStrict, Pref: options.PreferencePolicyRespect, Workers: 1}
+			w := world.New(world.Options{MinValuesPolicy: c.MinV})
+			env := &SchedEnv{W: w, Case: c, Catalog: catalogs["K1"], Volumes: map[string][]oracle.Volume{}, Pools: []*v1.NodePool{np}, CreateReversed: d[3] == 1}
+			w.CP.Catalog[""] = world.BuildCatalog(env.Catalog)
+			w.Add(world.NodeClass(), np)
+			for i, sh := range []int{sib[d[0]], sib[d[1]]} {
+				p := world.Pod(fmt.Sprintf("p%d", i), 5000, c13Pod(sh, key)...)
+				env.Pending = append(env.Pending, p)
+				w.Add(p)
+			}
+			w.SyncCluster()
+			out := env.runPass(explore.Replay(nil), 1)
+			l.Eval()
+			if out.Err != nil {
+				l.Outcome("schedule-error")
+				return
+			}
+			desc := fmt.Sprintf("siblings: pods [%s, %s] of 5 cpu each, pool %s on %s, NodeClaims created in %s order", c13ShapeName(sib[d[0]]), c13ShapeName(sib[d[1]]), map[int]string{0: "silent", 1: "Exists"}[d[2]], key, map[int]string{0: "decision", 1: "reverse"}[d[3]])
+			viol, n := env.judgeLaunchRequest(out)
+			if n >= 2 {
+				l.NontrivialH(ev.H("b5/" + desc))
+				l.Outcome("sibling-nodeclaims-created")
+			} else {
+				l.Outcome("siblings: fewer than two nodeclaims")
+			}
+			for _, v := range viol {
+				l.Violation(v.Sig, v.Msg+"  ["+desc+"]", map[string]any{"case": desc})
+			}
 		})
 		// (b4) the NodePool template is EDITED between the scheduling decision and the creation of the NodeClaims (and the
 		// hash controller re-stamps the NodePool): the NodeClaim still carries the labels / taints of the template it was
